@@ -166,15 +166,24 @@ func EncryptionPubKeyFromDIDKey(didKey string) (*cryptoapi.PublicKey, error) {
 	case fingerprint.P256PubKeyMultiCodec:
 		kmtKT = kms.ECDSAP256IEEEP1363
 		kt = "EC"
-		crv, x, y, pubKey = unmarshalECKey(elliptic.P256(), pubKey)
+		crv, x, y, pubKey, err = unmarshalECKey(elliptic.P256(), pubKey)
+		if err != nil {
+			return nil, fmt.Errorf("encryptionPubKeyFromDIDKey: %w", err)
+		}
 	case fingerprint.P384PubKeyMultiCodec:
 		kmtKT = kms.ECDSAP384IEEEP1363
 		kt = "EC"
-		crv, x, y, pubKey = unmarshalECKey(elliptic.P384(), pubKey)
+		crv, x, y, pubKey, err = unmarshalECKey(elliptic.P384(), pubKey)
+		if err != nil {
+			return nil, fmt.Errorf("encryptionPubKeyFromDIDKey: %w", err)
+		}
 	case fingerprint.P521PubKeyMultiCodec:
 		kmtKT = kms.ECDSAP521TypeIEEEP1363
 		kt = "EC"
-		crv, x, y, pubKey = unmarshalECKey(elliptic.P521(), pubKey)
+		crv, x, y, pubKey, err = unmarshalECKey(elliptic.P521(), pubKey)
+		if err != nil {
+			return nil, fmt.Errorf("encryptionPubKeyFromDIDKey: %w", err)
+		}
 	default:
 		return nil, fmt.Errorf("encryptionPubKeyFromDIDKey: unsupported key multicodec code [0x%x]", code)
 	}
@@ -193,7 +202,7 @@ func EncryptionPubKeyFromDIDKey(didKey string) (*cryptoapi.PublicKey, error) {
 	}, nil
 }
 
-func unmarshalECKey(ecCRV elliptic.Curve, pubKey []byte) (string, []byte, []byte, []byte) {
+func unmarshalECKey(ecCRV elliptic.Curve, pubKey []byte) (string, []byte, []byte, []byte, error) {
 	var (
 		x []byte
 		y []byte
@@ -217,12 +226,15 @@ func unmarshalECKey(ecCRV elliptic.Curve, pubKey []byte) (string, []byte, []byte
 		// add compression byte for uncompressed key, comment of fingerprint.PubKeyFromDIDKey().
 		pubKey = append([]byte{4}, pubKey...)
 		xBig, yBig = elliptic.Unmarshal(ecCRV, pubKey)
+		if xBig == nil || yBig == nil {
+			return "", nil, nil, nil, fmt.Errorf("invalid %s public key", ecCurves[ecCRV])
+		}
 
 		x = xBig.Bytes()
 		y = yBig.Bytes()
 	}
 
-	return ecCurves[ecCRV], x, y, pubKey
+	return ecCurves[ecCRV], x, y, pubKey, nil
 }
 
 func extractRawKey(didKey string) ([]byte, uint64, error) {
